@@ -57,7 +57,7 @@ def transitions(profile: str, universe: str, depth: int, maxpath: int = 3, model
     """run MC_Build; returns (list of transition records, info).  Cached: depends on the specification only."""
     model = model or INTENDED
     u = UNIVERSES[universe]
-    key = spec_hash("NetBuild.tla", "MC_Build.tla") + f"-{profile}-{universe}-{depth}-{maxpath}-" + "".join(v[0] for v in model.values())
+    key = spec_hash("NetBuild.tla", "MC_Build.tla", "DynCases.tla") + f"-{profile}-{universe}-{depth}-{maxpath}-" + "".join(v[0] for v in model.values())
     CACHE.mkdir(exist_ok=True)
     p, meta = CACHE / f"build-{key}.ndjson", CACHE / f"build-{key}.meta.json"
     if p.exists() and meta.exists():
